@@ -5,17 +5,27 @@ import Aiortc.Lemmas.C02.DrainPRCoh
 namespace Aiortc.Sctp
 open Aiortc.Gen
 
+/-- the guard of `_receive_sack_chunk` by index -/
+theorem sackStale_TP {b : Int} {κ f : Nat} {t : Tx} (h : TxSeqP b κ f t) (k : Nat) (hk : k < 2147483648) :
+    t.sackStale (T b k) = (decide (k < κ) || decide (f + (t.sentQ.length + t.outQ.length) < k)) := by
+  unfold Tx.sackStale
+  have hb := h.bound; have hle := h.le
+  have hm : tsn_minus_one t.localTsn = T b (f + (t.sentQ.length + t.outQ.length)) := by
+    rw [h.localTsn]; unfold tsn_minus_one T; push_cast; omega
+  rw [hm, h.ls, gte_T b k κ hk (by omega), gt_T b k _ hk (by omega)]
+  by_cases h1 : κ ≤ k <;> simp [h1] <;> omega
+
 theorem receiveSack_staleP {b : Int} {κ f : Nat} {t : Tx} (h : TxSeqP b κ f t) (k : Nat) (hk : k < κ) (gaps : List (Nat × Nat))
     (now : Int) : t.receiveSack (T b k) gaps now = .ok none := by
   unfold Tx.receiveSack
   have := h.bound; have := h.le
-  rw [h.ls, gt_T b κ k (by omega) (by omega)]
+  rw [sackStale_TP h k (by omega)]
   simp [hk]
 
-theorem not_staleP {b : Int} {κ f : Nat} {t : Tx} (h : TxSeqP b κ f t) (k : Nat) (hk : κ ≤ k) (hk2 : k < 2147483648) :
-    uint32_gt t.lastSacked (T b k) = false := by
+theorem not_staleP {b : Int} {κ f : Nat} {t : Tx} (h : TxSeqP b κ f t) (k : Nat) (hk : κ ≤ k)
+    (hk2 : k ≤ f + (t.sentQ.length + t.outQ.length)) : t.sackStale (T b k) = false := by
   have := h.bound; have := h.le
-  rw [h.ls, gt_T b κ k (by omega) hk2]
+  rw [sackStale_TP h k (by omega)]
   simp; omega
 
 /-- what `PLink.deliverSack` does in a coherent state -/
